@@ -329,13 +329,15 @@ def r13(chk, m, Token, Tokenizer):
                         '(control word: skip blanks, state S, decided by the CATEGORY of the characters read; '
                         'control symbol: state M)%s' % (stn, name, _fmt(got), _fmt(want), extra),
                         chk.where(fn), _fmt(got))
-    # escape followed by end-of-line: a control space / space, state S tolerated or M;
-    # the property does not fix it, but exactly one token must result
+    # escape followed by end-of-line: exactly one token (control space or space -
+    # the property does not fix which); the line ends there, so the next line
+    # starts in state N (blanks skipped, an empty line is a paragraph)
     for stn in 'NMS':
         got, detail = run_cell(m, fn, Tokenizer, body_env, consts, stn, ESC, [EOLC])
-        ok = len(got) == 1 and all(len(t) == 1 and c == 1 for (t, s, rl, c) in got)
+        ok = len(got) == 1 and all(len(t) == 1 and c == 1 and s == 'N' for (t, s, rl, c) in got)
         chk.verdict(R, 'cell(state=%s, code=ESCAPE, next=eol)' % stn, ok,
-                    'escape followed by end-of-line must give exactly one token: %s' % _fmt(got),
+                    'escape followed by end-of-line must give exactly one token and leave state N (new line: '
+                    'blanks at the line start skipped, blank line = paragraph): %s' % _fmt(got),
                     chk.where(fn), _fmt(got))
     # end of input terminates the generator
     h = [n for n in M.walk_no_nested(fn.node) if isinstance(n, ast.ExceptHandler) and n.type is not None and 'StopIteration' in text(n.type)]
